@@ -306,6 +306,8 @@ ACTIONS = [
     # ids the viewers' on-disk caches know (only the viewer-cache configuration finds them), an ordinary child of one of them
     ("XA6", "X", ("A", 6, 43)), ("XA7", "X", ("A", 7, 50)), ("XA8", "X", ("A", 8, 57)), ("XA6other", "X", ("A", 6, 2043)), ("XA6older", "X", ("A", 6, 1043)),
     ("UA2p6", "U", ("A", 2, 2, 6)), ("KA6", "K", ("A", (6,))),
+    # an object the viewers' caches know under another local id than the one it is announced with now
+    ("UA3f6", "U", ("A", 3, 6, 0)),
     # an avatar (name/value pairs of every shape) alone and together with an attachment in one message
     ("VA9both", "M", ("A", ((9, 9, 0, "both"),))), ("VA9first", "M", ("A", ((9, 9, 0, "first"),))),
     ("VA9last+2", "M", ("A", ((9, 9, 0, "last"), (2, 2, 9, "prim")))), ("VA9first+4", "M", ("A", ((9, 9, 0, "first"), (4, 4, 9, "prim")))),
